@@ -422,6 +422,7 @@ type c02Clear struct {
 	State string `json:"state"`
 	Line  string `json:"line"`
 	Nth   int    `json:"nth"`
+	Frag  int    `json:"frag,omitempty"` // >0: the line arrives cut into that many pieces in the session's fragment format
 }
 
 func c02ClearWorlds(seed int64) map[string]*verifWorld {
@@ -475,7 +476,21 @@ func c02ClearEval(w0 *verifWorld, c c02Clear) (fs []verifFinding) {
 			}
 			want = append(append([]byte{}, line[:i]...), line[j:]...)
 		}
-		r := R.Receive(line)
+		var r verifResult
+		if c.Frag > 0 {
+			ver := 3
+			if strings.HasPrefix(c.World, "v2") {
+				ver = 2
+			}
+			for _, piece := range c16XFragments(line, ver, c.Frag, R.C.theirInstanceTag, R.C.ourInstanceTag) {
+				r = R.Receive(piece)
+				if r.Panic != "" {
+					break
+				}
+			}
+		} else {
+			r = R.Receive(line)
+		}
 		if r.Panic != "" {
 			return []verifFinding{{"C02:panic:" + verifPanicClass(r.Panic), r.Panic}}
 		}
@@ -514,7 +529,14 @@ func c02ClearCases(worlds map[string]*verifWorld) (out []c02Clear) {
 			for _, st := range states {
 				for _, l := range lines {
 					for nth := 0; nth < 2; nth++ {
-						out = append(out, c02Clear{wn, r, st, l, nth})
+						out = append(out, c02Clear{wn, r, st, l, nth, 0})
+						if !strings.HasSuffix(wn, "plaintext-required") && !strings.Contains(l, ",") {
+							// the same cleartext inside a fragment train (one piece, three pieces)
+							out = append(out, c02Clear{wn, r, st, l, nth, 1})
+							if len(l) >= 6 {
+								out = append(out, c02Clear{wn, r, st, l, nth, 3})
+							}
+						}
 					}
 				}
 			}
@@ -609,7 +631,7 @@ func init() {
 					r.addCase("C02", f.Sig, f.Detail, cc)
 				}
 			}
-			r.sample(map[string]interface{}{"cleartext": c02Clear{"v3/whitespace", 1, "after-traffic", "hello in the clear", 0}})
+			r.sample(map[string]interface{}{"cleartext": c02Clear{"v3/whitespace", 1, "after-traffic", "hello in the clear", 0, 0}})
 			r.States = int64(n)
 			r.Traces = r.Evals
 			r.Extra["cases_by_family"] = classes
